@@ -366,3 +366,39 @@ func VerifC14_DecodeIntoUsedChain() {
 	q := Payload{Instance: 1, Phase: PREPARE_PHASE, Value: verifDeepCopyChain(src)}
 	sym.Assert(bytes.Equal(p.MarshalForSigning("nn"), q.MarshalForSigning("nn")), "KNOWN:c14-bottom-decoded-into-used-chain:signed bytes of a decoded chain are those of its content")
 }
+
+// VerifC14_DecodeMutatedGMessage: a valid encoding of a COMMIT message with
+// justification in which one byte (two adjacent bytes in the thorough tier), at
+// any position, is replaced by arbitrary values: the decoder returns an error
+// or a value, never panics and never allocates beyond the documented limits
+// (a length field blown up by the mutation must be refused, not allocated);
+// whatever decodes re-encodes without error.
+func VerifC14_DecodeMutatedGMessage() {
+	c := VerifNewCommittee()
+	j := VerifJustification(c, 7, 0, PREPARE_PHASE, VerifX(2), 0, 1)
+	m := VerifMessage(c, 0, 7, 0, COMMIT_PHASE, VerifX(2), j)
+	var b bytes.Buffer
+	if err := m.MarshalCBOR(&b); err != nil {
+		panic(err)
+	}
+	data := append([]byte(nil), b.Bytes()...)
+	pos := sym.Choice("position", len(data))
+	if sym.Tier() == 0 && pos%4 != 0 && pos > 64 {
+		sym.Assume(false) // quick tier: every position of the first 64 bytes, every 4th beyond
+	}
+	width := 1 + sym.Tier()
+	mut := sym.Bytes("mutation", width)
+	for k := 0; k < width && pos+k < len(data); k++ {
+		data[pos+k] = mut[k]
+	}
+	sym.AllocLimit(1 << 20)
+	var d GMessage
+	err := d.UnmarshalCBOR(bytes.NewReader(data))
+	sym.CheckAlloc()
+	sym.Cover("mutated")
+	if err == nil {
+		sym.Cover("still-decodes")
+		var out bytes.Buffer
+		sym.Assert(d.MarshalCBOR(&out) == nil, "a decoded message can be encoded again")
+	}
+}
